@@ -614,6 +614,20 @@ def run(rep: C.Report, tier: str) -> int:
         rep.violation("C11/proof", f"proof obligation no longer checks: {_e.what}",
                       {"theorem_or_correspondence": _e.what, "log": _e.log[-1000:]}, False)
 
+    try:      # the bridge MathComp realFieldType <-> Coq reals: the trace form as a genuine derivative, every n
+        _real = ["C11_R_carrier", "C11_R_operations", "C11_R_order", "C11_det_derivative", "C11_ln_det_derivative",
+                 "C11_quad_form_derivative", "C11_ml_score_def", "C11_ml_directional_derivative",
+                 "C11_ml_directional_derivative_trace_form", "C11_ml_directional_derivative_general",
+                 "C11_ml_mean_derivative", "C11_ln_det_derivative_at", "C11_quad_form_derivative_at",
+                 "C11_ml_directional_derivative_at", "C11_ml_value_real", "C11_loo_value_real"]
+        _a = C.coq_audit("C11_real", _real, "IT.Properties.C11Real")
+        rep.obligation(True, len(_real))
+        rep.coverage["real_bridge_theorems_audit"] = _a
+    except C.ProofFailure as _e:
+        rep.obligation(False, 16)
+        rep.violation("C11/proof", f"proof obligation no longer checks: {_e.what}",
+                      {"theorem_or_correspondence": _e.what, "log": _e.log[-1000:]}, False)
+
     cases, outs = [], []
     for k in range(n_cases):
         case = gen_case(r, k, tier)
@@ -806,15 +820,17 @@ def run(rep: C.Report, tier: str) -> int:
         "inputs are conditioned (cond <= 1e4)",
         "Jacobi's formula (det(A + t dA) = det A + t tr(adj A dA) + t^2 rem(t); epsilon-delta derivative over any "
         "ordered field) and the resolvent identity / exact first-order expansion of the inverse are proved for every n "
-        "(Properties/C11Jacobi.v, axiom-free). NOT proved: the chain rule through the real logarithm and through "
-        "theta -> K(theta) for n > 2, i.e. that the trace form is the derivative of the full score as a function of the "
-        "hyper-parameters (proved for n = 2: C11_ml_gradient_is_derivative_n2); checked on the implementation by "
-        "central differences [oracle]",
+        "(Properties/C11Jacobi.v, axiom-free); on the bridge Common/Rstruct.v (Coq's R as a MathComp realFieldType) the "
+        "directional derivative of -1/2 r^T A^-1 r - 1/2 ln det A along dA is proved to be the trace form the code "
+        "evaluates, as a Coquelicot is_derive, for every n, and ml_value / loo_value are proved equal to the score / the "
+        "sum of LOO log-densities over R (Properties/C11Real.v). NOT proved: the composition with theta -> K(theta) "
+        "(only directional derivatives along a given dK/dtheta_k; the kernels' own derivatives are C10); checked on "
+        "the implementation by central differences [oracle]",
         "NOT proved: that L-BFGS-B satisfies the optimiser contract of C11_multistart_not_worse_than_centre (returned "
         "cost <= cost at its start, result inside the bounds); checked on recorded seeded runs [R test]; differential "
         "evolution is only checked for bounds",
-        "the matrix theorems (any real field) and the logarithm lemmas (Coq reals) meet in ml_value / loo_value; no "
-        "formal bridge between the two number systems",
+        "the matrix theorems (any real field) and the logarithm lemmas (Coq reals) are joined by Common/Rstruct.v "
+        "(choiceType on R uses Coq.Logic.Epsilon.epsilon_statement)",
         "refit comparison: predictive variance of the refitted regressor + the diagonal term of K_xx + sig for the "
         "left-out observation (its own noise / jitter); mean functions are re-centred exactly; correlated observation "
         "noise (non-diagonal y_cov) is excluded from the refit comparison, not from the other obligations",
@@ -828,7 +844,8 @@ def run(rep: C.Report, tier: str) -> int:
                     "(vm_compute) and values_*.v (coq-interval)",
         trusted_base=C.KERNEL_TB + [
             "axioms: matrix half closed under the global context; real half: Coq Reals + Coquelicot "
-            "(ClassicalDedekindReals.sig_forall_dec, sig_not_dec, functional_extensionality_dep, Classical_Prop.classic)",
+            "(ClassicalDedekindReals.sig_forall_dec, sig_not_dec, functional_extensionality_dep, Classical_Prop.classic); "
+            "Properties/C11Real.v additionally Coq.Logic.Epsilon.epsilon_statement (choiceType structure on R)",
             "coq-interval reflexive interval evaluator (score-value goals)",
             "Matrix/ListOps.v (executable matrix instance; inverse verified at run time)"],
         rule="configurations walk kernel (SE, RQ, SE+WN, RQ+WN, SE+RQ, CP(SE,SE), SE+SE+WN) x mean (3) x errors "
